@@ -86,9 +86,23 @@ def build_val(v):
     raise ValueError(v)
 
 
+def sentinel(name):
+    """value JSON of the module-level object `name = object()`: an opaque instance known by its name"""
+    return ["m", "object", [["id", ["s", name]]]]
+
+
+def is_sentinel(v):
+    return isinstance(v, list) and len(v) == 3 and v[0] == "m" and v[1] == "object"
+
+
+_SENTINEL_IDS: dict = {}      # id(object) -> name, for the sentinel objects of the loaded modules (kept alive there)
+
+
 def lit_val(v):
     """python source text of a value"""
     k = v[0]
+    if is_sentinel(v):
+        return v[2][0][1][1]
     if k == "n":
         return "None"
     if k == "i":
@@ -132,6 +146,8 @@ def enc_val(o):
         return ["nd"]
     if o is None:
         return ["n"]
+    if type(o) is object:              # by IDENTITY: a copy of a sentinel is not the sentinel
+        return sentinel(_SENTINEL_IDS[id(o)]) if id(o) in _SENTINEL_IDS else ["?", "object"]
     if isinstance(o, bool):
         return ["?", "bool"]
     if isinstance(o, numbers.Integral):
@@ -263,6 +279,8 @@ def render_expr(e, indent):
         return [lit_val(e[1])]
     if k == "k":
         return ["_off"]
+    if k == "is":                 # identity against the default object; A and B are one-line expressions
+        return [f"{render_expr(e[4], indent)[0]} if {e[1]} is {e[2]} else {render_expr(e[5], indent)[0]}"]
     op, cl_ = ("(", ")") if k == "t" else ("[", "]")
     sep = SEPS[e[2] % len(SEPS)] if len(e) > 2 else ", "
     lines = [op]
@@ -323,6 +341,8 @@ def canonical_text(e):
         return lit_val(e[1])
     if k == "k":
         return "_off"
+    if k == "is":
+        return f"{canonical_text(e[4])} if {e[1]} is {e[2]} else {canonical_text(e[5])}"
     op, cl_ = ("(", ")") if k == "t" else ("[", "]")
     return op + ", ".join(canonical_text(x) for x in e[1]) + ("," if k == "t" and len(e[1]) == 1 else "") + cl_
 
@@ -332,12 +352,14 @@ def class_source(case):
     optional) and `class f(B)` overriding it; -> (source, fragment lists of f's statements)"""
     lines = ["from pyiron_workflow.nodes.function import Function", "import typing", "", ""]
     base = case.get("base")
+    objs = []
     chain = ([("B", "Function", base)] if base else []) + [("f", "B" if base else "Function", case)]
     frags = None
     for cname, parent, d in chain:
         src, frags = fn_source({**d, "via": "call", "postponed": False, "nested": False, "base": None})
         fl = src.split("\n")
         k = next(i for i, l in enumerate(fl) if l.startswith("def f("))
+        objs += [l for l in fl[:k] if l.startswith(("_S", "_L")) and l not in objs]
         lines.append(f"class {cname}({parent}):")
         if d["declared"]:
             lines.append("    _output_labels = (" + ", ".join(json.dumps(l) for l in d["declared"]) + ",)")
@@ -347,6 +369,7 @@ def class_source(case):
         lines.append("    def node_function(" + fl[k][len("def f("):])
         lines.extend("    " + l if l else l for l in fl[k + 1:])
         lines.append("")
+    lines[2:2] = objs
     return "\n".join(lines), frags
 
 
@@ -354,14 +377,19 @@ def fn_source(case):
     """python source of the described function (named f) and the fragment lists per statement"""
     if case["via"] == "class":
         return class_source(case)
-    ps, fac_args = [], []
+    ps, fac_args, objects = [], [], []
     for p in case["params"]:
         t = p["name"]
         if p.get("ann") is not None:
             t += ": " + ann_src(p["ann"])
         if p.get("default") is not None:
-            dflt = f"_d{len(fac_args)}" if case.get("factory") else lit_val(p["default"])
-            fac_args.append(lit_val(p["default"]))
+            lit = p.get("by_ref") or lit_val(p["default"])     # a module-level object referred to by name
+            if p.get("by_ref"):
+                objects.append(f"{p['by_ref']} = {lit_val(p['default'])}")
+            elif is_sentinel(p["default"]):
+                objects.append(f"{lit} = object()")
+            dflt = f"_d{len(fac_args)}" if case.get("factory") else lit
+            fac_args.append(lit)
             t += (" = " if p.get("ann") is not None else "=") + dflt
         ps.append(t)
     ret = ""
@@ -373,6 +401,7 @@ def fn_source(case):
     if case["via"] == "at":
         head.append("from pyiron_workflow import as_function_node")
     head.append("import typing")
+    head.extend(objects)
     head.append("")
     head.append("")
     if case["via"] == "at":
@@ -460,6 +489,9 @@ def load_module(src, fresh=False):
     except BaseException:
         sys.modules.pop(name, None)
         raise
+    for attr, obj in vars(mod).items():
+        if attr.startswith("_S") and type(obj) is object:
+            _SENTINEL_IDS[id(obj)] = attr
     _MODS[name] = mod
     return mod
 
@@ -577,7 +609,25 @@ def fn_objects(case):
     else:
         def make_instance(cls, pos, kw):
             return cls(*pos, **kw)
-    return make_class, make_instance
+
+    class DefaultObjectNotCarried(Exception):
+        pass
+
+    def checked_instance(cls, pos, kw):
+        """the input of a parameter left alone holds the parameter's default OBJECT (identity, not equality),
+        and so does the class-level preview"""
+        n = make_instance(cls, pos, kw)
+        bare = type(n).node_function
+        pre = type(n).preview_inputs()
+        for i, (name, prm) in enumerate(inspect.signature(bare).parameters.items()):
+            if prm.default is inspect.Parameter.empty:
+                continue
+            if pre[name][1] is not prm.default:
+                raise DefaultObjectNotCarried(name)
+            if i >= len(pos) and name not in kw and n.inputs[name].value is not prm.default:
+                raise DefaultObjectNotCarried(name)
+        return n
+    return make_class, checked_instance
 
 
 def tf_objects(case):
@@ -679,6 +729,8 @@ def expr_coq(e):
         return f"(EParam {cs(e[1])})"
     if k in ("c", "k"):       # a closure cell is a constant of the function object that is wrapped
         return f"(EConst {val_coq(e[1])})"
+    if k == "is":
+        return f"(EIs {cs(e[1])} {val_coq(e[3])} {expr_coq(e[4])} {expr_coq(e[5])})"
     return f"({'ETup' if k == 't' else 'ELst'} {cl(expr_coq(x) for x in e[1])})"
 
 
@@ -1235,6 +1287,8 @@ def gen_stmt(rng, params):
 
 
 def static_atoms(e, params):
+    if e[0] == "is":
+        return None
     if e[0] in ("c", "k"):
         return [{"i": "int", "s": "str", "n": "NoneType"}[e[1][0]]]
     if e[0] == "p":
@@ -1308,6 +1362,44 @@ def gen_fn(rng, ctx=None):
         case["nested"] = True       # defined inside a function scope (closure-style): __qualname__ != __name__
     case["ops"] = gen_ops(rng, [p["name"] for p in params], {p["name"]: atoms_of(p.get("ann")) for p in params},
                           [p["name"] for p in params if p["default"] is None])
+    if rng.random() < 0.12:
+        add_identity(rng, case)
+    return case
+
+
+def add_identity(rng, case):
+    """give one defaulted parameter a default whose IDENTITY the function looks at -- a sentinel object
+    (`_S0 = object()`, `... if p is _S0 else ...`) or a module-level list compared with `is` -- and make one
+    returned expression depend on it; the ops never pass an equal-but-distinct object for it"""
+    cands = [p_ for p_ in case["params"] if p_["default"] is not None]
+    body = case["body"]
+    if not cands or len(body) != 1 or body[0][0] not in ("single", "tuple") or body[0][1] == ["c", ["n"]]:
+        return case
+    p_ = rng.choice(cands)
+    p_["ann"] = None
+    if rng.random() < 0.6:
+        ref = "_S0"
+        p_["default"] = sentinel(ref)
+    else:
+        ref = "_L0"
+        p_["by_ref"] = ref
+        p_["default"] = ["l", [["i", 1], ["i", 2]]]
+    others = [q for q in case["params"] if q is not p_]
+    a = ["p", rng.choice(others)["name"]] if others and rng.random() < 0.5 else ["c", ["s", "dflt"]]
+    b = ["p", p_["name"]] if rng.random() < 0.6 else ["c", ["i", 8]]
+    e = ["is", p_["name"], ref, p_["default"], a, b]
+    if body[0][0] == "single":
+        body[0][1] = e
+    else:
+        body[0][1][rng.randrange(len(body[0][1]))] = e
+    case["ret"] = None
+    idx = [q["name"] for q in case["params"]].index(p_["name"])
+    for pos, kw in case["ops"]:
+        if idx < len(pos) and (pos[idx] == p_["default"] or is_sentinel(pos[idx])):
+            pos[idx] = ["i", 0]
+        for kv in kw:
+            if kv[0] == p_["name"] and (kv[1] == p_["default"] or is_sentinel(kv[1])):
+                kv[1] = ["i", 0]
     return case
 
 
@@ -1318,7 +1410,7 @@ def gen_fn_factory(rng):
     d = gen_fn(rng)
     while not any(p_["default"] is not None for p_ in d["params"]) and rng.random() < 0.8:
         d = gen_fn(rng)
-    d["via"] = rng.choice(["function_node", "function_node", "call", "to"])
+    d["via"] = rng.choice(["function_node", "function_node", "call", "to", "at"])
     d.pop("nested", None)
     off = ["i", rng.choice([50, 60, 70])]
 
@@ -1727,6 +1819,20 @@ def generate(ctx):
                  "validate": True, "via": via_, "postponed": False,
                  "factory": {"off": ["i", 20], "prior": [{"defaults": [["i", 2]], "off": ["i", 10]}]},
                  "ops": [[[["i", 1]], []], [[], []], [[], [["y", ["i", 5]]]]]})
+    add({"kind": "fn", "params": [{"name": "x", "ann": None, "default": None}, {"name": "y", "ann": None, "default": ["i", 3]}],
+         "body": [["tuple", [["p", "y"], ["k", ["i", 20]]], 0]], "ret": None, "declared": None, "validate": True,
+         "via": "at", "postponed": False,
+         "factory": {"off": ["i", 20], "prior": [{"defaults": [["i", 2]], "off": ["i", 10]}]},
+         "ops": [[[["i", 1]], []], [[], []]]})
+    # defaults whose identity matters: the sentinel idiom and a module-level list compared with `is`
+    for via_ in ("function_node", "call", "at", "class"):
+        for dflt_, ref_, extra_ in ((sentinel("_S0"), "_S0", {}), (["l", [["i", 1], ["i", 2]]], "_L0", {"by_ref": "_L0"})):
+            add({"kind": "fn", "params": [{"name": "value", "ann": None, "default": None},
+                                          {"name": "fallback", "ann": None, "default": dflt_, **extra_}],
+                 "body": [["single", ["is", "fallback", ref_, dflt_, ["p", "value"], ["p", "fallback"]]]],
+                 "ret": None, "declared": None, "validate": True, "via": via_, "postponed": False,
+                 **({"base": None, "base_first": False} if via_ == "class" else {}),
+                 "ops": [[[["i", 1]], []], [[], []], [[], [["fallback", ["s", "fb"]]]]]})
     n_fac = ctx.n(90, 1000)
     target = len(cases) + n_fac
     while len(cases) < target:
